@@ -987,12 +987,10 @@ func (g *G) setDefault(a *m.Attr) {
 		// other libyaml descendants) cannot read back although it is valid
 		// YAML: outside the generated domain. A leading newline is dropped by
 		// the YAML rendering (open finding).
-		// (also when spaces precede the tab: " \tZ\n…")
-		for i := 0; i < len(v.S) && (v.S[i] == ' ' || v.S[i] == '\t'); i++ {
-			if v.S[i] == '\t' {
-				v.S = v.S[:i] + "x" + v.S[i+1:]
-				break
-			}
+		// The same holds for any multi-line string that starts with a blank
+		// (" xZ\n…": "did not find expected key" when read back).
+		if strings.Contains(v.S, "\n") && (v.S[0] == ' ' || v.S[0] == '\t') || v.S[0] == '\t' {
+			v.S = "x" + v.S[1:]
 		}
 		if v.S[0] == '\n' && g.avoid("C07-yaml-drops-leading-newline-in-description") {
 			v.S = "x" + v.S[1:]
